@@ -64,6 +64,23 @@ var cdxSerialRe = regexp.MustCompile(`^urn:uuid:[0-9a-f]{8}-[0-9a-f]{4}-[1-5][0-
 // the hash-content pattern of the CycloneDX 1.3-1.5 JSON schemas
 var cdxHashContentRe = regexp.MustCompile(`^([a-fA-F0-9]{32}|[a-fA-F0-9]{40}|[a-fA-F0-9]{64}|[a-fA-F0-9]{96}|[a-fA-F0-9]{128})$`)
 
+// well-formed package identifiers (the CycloneDX schema constrains the cpe member by a pattern; a serializer may leave
+// out a value that is no CPE name, and a purl that is no purl)
+func genPurl(t *rapid.T, label string) string {
+	return "pkg:" + rapid.SampledFrom([]string{"npm", "deb", "golang", "maven"}).Draw(t, label+".ty") + "/" +
+		rapid.StringMatching(`[a-z][a-z0-9-]{0,7}`).Draw(t, label+".n") + "@" + rapid.StringMatching(`[0-9]\.[0-9]{1,2}`).Draw(t, label+".v")
+}
+
+func genCPE23(t *rapid.T, label string) string {
+	return "cpe:2.3:a:" + rapid.StringMatching(`[a-z][a-z0-9_]{0,6}`).Draw(t, label+".vd") + ":" + rapid.StringMatching(`[a-z][a-z0-9_]{0,6}`).Draw(t, label+".pr") +
+		":" + rapid.StringMatching(`[0-9]\.[0-9]`).Draw(t, label+".v") + ":*:*:*:*:*:*:*"
+}
+
+func genCPE22(t *rapid.T, label string) string {
+	return "cpe:/a:" + rapid.StringMatching(`[a-z][a-z0-9_]{0,6}`).Draw(t, label+".vd") + ":" + rapid.StringMatching(`[a-z][a-z0-9_]{0,6}`).Draw(t, label+".pr") +
+		":" + rapid.StringMatching(`[0-9]\.[0-9]`).Draw(t, label+".v")
+}
+
 // hashValue draws schema-valid hash contents.
 func hashValue(t *rapid.T, label string, other *rapid.Generator[string]) string {
 	// (contents outside the schema pattern are exercised by the totality checks C04 / C07: a document carrying one may be
@@ -118,16 +135,16 @@ func genCDXNode(t *rapid.T, id string) *sbom.Node {
 		n.Hashes[int32(rapid.IntRange(0, 17).Draw(t, "algo"))] = hashValue(t, "hv", tx)
 	}
 	if rapid.Bool().Draw(t, "haspurl") {
-		n.Identifiers = map[int32]string{1: hx.TextPlainNE().Draw(t, "purl")}
+		n.Identifiers = map[int32]string{1: genPurl(t, "purl")}
 	}
 	switch rapid.IntRange(0, 3).Draw(t, "cpe") {
 	case 1:
-		n.Identifiers = setID(n.Identifiers, 3, "cpe:2.3:"+tx.Draw(t, "cpe23"))
+		n.Identifiers = setID(n.Identifiers, 3, genCPE23(t, "cpe23"))
 	case 2:
-		n.Identifiers = setID(n.Identifiers, 2, "cpe:/"+tx.Draw(t, "cpe22"))
+		n.Identifiers = setID(n.Identifiers, 2, genCPE22(t, "cpe22"))
 	case 3:
-		n.Identifiers = setID(n.Identifiers, 3, "cpe:2.3:"+tx.Draw(t, "cpe23"))
-		n.Identifiers = setID(n.Identifiers, 2, "cpe:/"+tx.Draw(t, "cpe22"))
+		n.Identifiers = setID(n.Identifiers, 3, genCPE23(t, "cpe23"))
+		n.Identifiers = setID(n.Identifiers, 2, genCPE22(t, "cpe22"))
 	}
 	for i := rapid.IntRange(0, 3).Draw(t, "ner"); i > 0; i-- {
 		er := &sbom.ExternalReference{Url: tx.Draw(t, "erurl"), Comment: tx.Draw(t, "ercm"), Authority: tx.Draw(t, "erau"),
@@ -237,7 +254,7 @@ func genCDXDoc(t *rapid.T) cdxCase {
 	} else {
 		doc.Metadata.Id = hx.TextPlain().Draw(t, "serial")
 	}
-	doc.Metadata.Version = fmt.Sprintf("%d", rapid.IntRange(0, 100000).Draw(t, "ver"))
+	doc.Metadata.Version = fmt.Sprintf("%d", rapid.IntRange(1, 100000).Draw(t, "ver")) // (the schema's minimum is 1)
 	// Metadata.Name replaces the root component's name on output (known finding KF-03): keep them equal
 	if rapid.Bool().Draw(t, "docname") {
 		doc.Metadata.Name = nodes[0].Name
@@ -280,10 +297,8 @@ func cdxProjFor(v15 bool) func(n *sbom.Node, wildcard bool) proj {
 		}
 		switch {
 		case n.Type == sbom.Node_FILE:
-			p["primary_purpose"] = "FILE"
-			if !wildcard && first != sbom.Purpose_FILE {
-				p["primary_purpose"] = first.String()
-			}
+			// (the statement fixes the file kind; whether a file reads back with a FILE purpose, with its own or with none
+			// is the reader's choice: not compared)
 		case cdxNativePurpose[first] != "" && (v15 || !cdxOnly15Purpose[first]):
 			p["primary_purpose"] = first.String()
 		case wildcard:
@@ -347,8 +362,9 @@ func compareDocsCDX(want, got *sbom.Document, pf func(n *sbom.Node, wildcard boo
 		sort.Strings(keys)
 		for _, k := range keys {
 			if k == "primary_purpose" && w[k] == wildcardMark {
-				if g[k] != "UNKNOWN_PURPOSE" && !cdxNativeName(g[k]) {
-					return fmt.Errorf("node %q: purpose came back as %q, which is not a native component type", n.Id, g[k])
+				// a purpose CycloneDX has no component type for may come back absent, as a native type, or as itself
+				if g[k] != "UNKNOWN_PURPOSE" && !cdxNativeName(g[k]) && (len(n.PrimaryPurpose) == 0 || g[k] != n.PrimaryPurpose[0].String()) {
+					return fmt.Errorf("node %q: purpose came back as %q, which is neither a native component type nor the node's own", n.Id, g[k])
 				}
 				continue
 			}
